@@ -628,7 +628,7 @@ impl GC {
 //@LOOP 1 invariant self.mark_bitmap@ == m, m == old(self).mark_bitmap@, n0 == old(self).objects@.len(), m.len() == n0, gc_wf(*old(self)), zeros_of(__v@, m), forall|k: int| 0 <= k < n0 && !m[k] ==> may_free(#[trigger] old(self).objects@[k]), sweep_inv(old(self).objects@, self.objects@, m, perm, bound(__v@, __k as int, n0)), self.objects@.len() == n0 - __k
 //@GHOST after="let object = self.objects.swap_remove(unmarked);" proof { let last = perm.len() - 1; let bb = bound(__v@, __k as int, n0); assert(unmarked < bb); assert(perm[unmarked as int] == unmarked); assert(object == old(self).objects@[unmarked as int]); lemma_sweep_step(old(self).objects@, sw0, self.objects@, m, perm, __v@, __k as int, n0); perm = perm.update(unmarked as int, perm[last]).drop_last(); }
 //@GHOST before="let object = self.objects.swap_remove(unmarked);" let ghost sw0 = self.objects@; proof { lemma_bound_step(__v@, __k as int, m); }
-//@GHOST before="self.mark_bitmap.clear();" proof { lemma_sweep_done(old(self).objects@, self.objects@, m, perm, __v@, n0); }
+//@POSTLOOP 1 proof { lemma_sweep_done(old(self).objects@, self.objects@, m, perm, __v@, n0); }
 //@BODY file=gc.rs fn=sweep impl=GC sig="pub fn sweep(&mut self)" rules="R4;R4d;R8[self.mark_bitmap.iter_zeros().rev()=>self.mark_bitmap.zeros_desc()];R13[unmarked in self.mark_bitmap.zeros_desc()]"
     }
 
